@@ -8,13 +8,16 @@ def main(tier: str) -> int:
     rep = common.Report("C10", tier, "other")
     rep.functions = ["nunavut.jinja.CodeGenerator._generate_code", "CodeGenerator._generate_with_line_buffer", "nunavut._postprocessors.LimitEmptyLines (start_file, __call__)",
                      "nunavut._postprocessors.TrimTrailingWhitespace", "nunavut.lang._common.UniqueNameGenerator (reset, get_instance, __call__)",
-                     "nunavut.jinja.DSDLCodeGenerator._generate_type over the real C templates of /verif/data/ns1"]
+                     "nunavut.jinja.DSDLCodeGenerator._generate_type over the real C templates of /verif/data/ns1",
+                     "nunavut.lang.cpp.filter_block_comment / _make_block_comment / _make_textwrap (every built-in comment style, 2 indents, 3 texts; natively too: "
+                     "CrossHair runs lru_cache uncached)"]
     M = "h_C10"
     T = 600 if tier == "quick" else 3000
     conds = [Cond(M, f, T, 120, dict(C10_K="2")) for f in ("limiter_arbitrary_prestate", "unique_names_do_not_leak")]
     conds += [Cond(M, "limiter_state_does_not_leak", T, 120, dict(C10_K="2", C10_N=n)) for n in ("0", "1")]
     conds.append(Cond(M, "earlier_run_with_other_options_does_not_matter", max(T, 900), 600))
     conds.append(Cond(M, "earlier_run_over_another_tree_does_not_matter", max(T, 900), 600))
+    conds.append(Cond(M, "block_comment_keeps_no_memory", T, 120))
     masks = (1, 2, 4, 7) if tier == "quick" else range(1, 8)
     for m in masks:
         conds.append(Cond(M, "subset_and_order_do_not_matter", max(T, 900), 600, dict(C10_MASK=str(m))))
